@@ -82,6 +82,18 @@ reg('C13', True,
     'functor behaviour, the global invariants as an inductive proof.',
     'clang 14 AST/CFG of the explicit instantiations Grid<int>, GridN<int>, GridB<int>; BinaryHeap is covered by C11',
     'finite-domain abstract evaluation of the per-neighbour code + constant tracking + must-pass-through over clang CFG')
-for _p in ['C01', 'C02', 'C03', 'C06', 'C07', 'C08', 'C09', 'C10', 'C14', 'C15', 'C16',
+reg('C10', True,
+    'Decides structural necessary conditions of exactness for both GNAT variants, the linear and the sqrt-approximate '
+    'structure: removed elements are filtered at every result-producing site; remove() tests identity before marking, '
+    'keeps verdict/size_/removed_ consistent on every path and rebuilds when a pivot is removed or the cache is full; '
+    'size bookkeeping per path; all 24 pruning/enqueue predicates, in signed-term normal form with variant-specific '
+    'names mapped, equal the GNAT specification forms (sign, strictness, bound pairing), have the right polarity and '
+    'consequence, K forms are guarded by "k found", the search radius is the k-th distance resp. the query radius; '
+    'envelope updates move min down / max up; the tie clause is present; linear sort/truncate/filter; sqrt mutators '
+    'refresh the check count; the no-thread-safety scratch queue is empty on every exit. Not decided: that the envelopes '
+    'are conservative for a metric (inductive geometric argument), result order under ties.',
+    'clang 14 AST/CFG of the explicit instantiations over int; the distance function is an opaque callback',
+    'canonical (signed-term) normal forms compared with a specification table + typestate over clang CFG')
+for _p in ['C01', 'C02', 'C03', 'C06', 'C07', 'C08', 'C09', 'C14', 'C15', 'C16',
            'C17', 'C20']:
     reg(_p, False, '', '', '', PENDING)
